@@ -201,6 +201,7 @@ class World:
         rec = {"line": line, "target": target, "kind": kind, "err": None if err is None else (base_of(err), type(err).__name__),
                "before": before, "after": after, "warn": warn, "res": res,
                "args_changed": (held is not None and args_state() != held)}
+        rec["idx"] = len(self.lines)
         self.records.append(rec)
         self.lines.append(line)
         if err is not None:
@@ -222,15 +223,19 @@ def props_token(p):
     return "_" if not p else ";".join(f"{k}={hexs(v)}" for k, v in p.items())
 
 
-def gen_history(world: World, kind: str, length: int, weights=None, irregular_bias: float = 0.3):
+def gen_history(world: World, kind: str, length: int, weights=None, irregular_bias: float = 0.3, force_cols=None,
+                valid_bias: float = 0.0):
     """Generate and execute one history on the real objects; returns the main object's name."""
     rng = world.rng
     world.objs = {}          # the frame oracle looks at the objects of this history only
     CLS = world.CLS[kind]
     digital = kind == "digital"
     tag = rng.choice(SUPPORTED[kind])
-    ncols = rng.randint(1, 3) if digital else 1
+    ncols = (1 if rng.random() < 0.45 else rng.randint(2, 3)) if digital else 1
+    if force_cols is not None and digital:
+        ncols = force_cols
     main = world.fresh()
+    hint = {"junction": None}   # when set: bias irregular source timing towards the receiver's last timestamp
 
     def rand_props():
         keys = ["a", "b", "NI_ChannelName", "NI_UnitDescription"] + ([LINE_NAMES] if digital else [])
@@ -240,6 +245,16 @@ def gen_history(world: World, kind: str, length: int, weights=None, irregular_bi
         if kind == "spectrum":
             return None
         c = rng.random()
+        if hint["junction"] is not None and rng.random() < 0.7:
+            # continue from the receiver's last timestamp: equal junction or one step away, either direction,
+            # possibly with a plateau — the cases where only the concatenation as a whole decides monotonicity
+            cur = hint["junction"] + rng.choice([0, 0, 1, -1])
+            d = rng.choice([1, -1])
+            st = []
+            for _k in range(n):
+                st.append(cur)
+                cur += d * rng.choice([0, 1, 1, 2])
+            return ("I", st)
         if c < irregular_bias:
             m = n if (not allow_bad or rng.random() < 0.8) else max(0, n + rng.choice([-1, 1, 2]))
             st = sorted(rng.randint(0, 50) for _ in range(m))
@@ -283,7 +298,7 @@ def gen_history(world: World, kind: str, length: int, weights=None, irregular_bi
             else:
                 m = rng.randint(0, 6) if n is None else n + rng.choice([0, 0, 1, 3])
                 rows = world.mk_values(t, m, cols, digital)
-                nd = 1 if not digital else rng.choice([2, 2, 1] if cols == 1 else [2])
+                nd = 1 if not digital else rng.choice([2, 1] if cols == 1 else [2])
                 ak = rng.choice(["owned", "owned", "view", "strided"])
                 arr = world.mk_array(t, rows, nd, ak)
                 st = rng.choice([None, None, 0, 1, 2, m, m + 1])
@@ -334,8 +349,8 @@ def gen_history(world: World, kind: str, length: int, weights=None, irregular_bi
         irregular = world.timing_render(o).startswith("I")
         if op == "appa":
             m = rng.choice([0, 1, 2, 3, 5])
-            t2 = tag if rng.random() < 0.9 else rng.choice(SUPPORTED[kind])
-            cols2 = ncols if rng.random() < 0.9 else rng.randint(1, 3)
+            t2 = tag if rng.random() < max(0.9, valid_bias) else rng.choice(SUPPORTED[kind])
+            cols2 = ncols if rng.random() < max(0.9, valid_bias) else rng.randint(1, 3)
             nd = (2 if rng.random() < 0.8 or cols2 != 1 else 1) if digital else (1 if rng.random() < 0.93 else 2)
             arr = world.mk_array(t2, world.mk_values(t2, m, cols2, digital), nd, rng.choice(["owned", "view"]))
             ts = None
@@ -364,6 +379,9 @@ def gen_history(world: World, kind: str, length: int, weights=None, irregular_bi
                       args_state=lambda: (arr.tobytes(), None if tsreal is None else list(tsreal)))
         elif op == "appw":
             srcs = []
+            if irregular and o.sample_count:
+                tr = world.timing_render(o).split(":")[2]
+                hint["junction"] = int(tr.split(",")[-1]) if "_" not in tr else None
             for _i in range(rng.choice([1, 1, 2, 3])):
                 nm = world.fresh()
                 t2 = tag if rng.random() < 0.92 else rng.choice(SUPPORTED[kind])
@@ -378,6 +396,7 @@ def gen_history(world: World, kind: str, length: int, weights=None, irregular_bi
                 if ok:
                     # bias source timing towards the receiver's mode
                     srcs.append(nm)
+            hint["junction"] = None
             if not srcs:
                 continue
             real = [world.objs[n][1] for n in srcs]
@@ -390,13 +409,16 @@ def gen_history(world: World, kind: str, length: int, weights=None, irregular_bi
                 world.expect[-1] = "ok " + rec["after"][main] + " warn=" + ("_" if not rec["warn"] else ",".join(rec["warn"]))
         elif op == "load":
             m = rng.choice([0, 1, 2, 4, 6])
-            t2 = tag if rng.random() < 0.92 else rng.choice(SUPPORTED[kind])
-            cols2 = ncols if rng.random() < 0.9 else rng.randint(1, 3)
-            nd = (2 if rng.random() < 0.8 or cols2 != 1 else 1) if digital else (1 if rng.random() < 0.93 else 2)
+            t2 = tag if rng.random() < max(0.92, valid_bias) else rng.choice(SUPPORTED[kind])
+            cols2 = ncols if rng.random() < max(0.9, valid_bias) else rng.randint(1, 3)
+            nd = (2 if rng.random() < 0.5 or cols2 != 1 else 1) if digital else (1 if rng.random() < 0.93 else 2)
             arr = world.mk_array(t2, world.mk_values(t2, m, cols2, digital), nd, rng.choice(["owned", "owned", "view"]))
             cp = rng.random() < 0.6
-            st = rng.choice([None, None, 0, 1, 2, m, m + 1, -1])
-            cnt = rng.choice([None, None, 0, 1, 2, max(0, m - (st or 0)), m + 1, o.sample_count, -1])
+            st = rng.choice([None, None, None, 0, 0, 1, 2, m, m + 1, -1])
+            cnt = rng.choice([None, None, None, 0, 1, 2, max(0, m - (st or 0)), max(0, m - (st or 0)), m + 1, o.sample_count, -1])
+            if rng.random() < valid_bias:
+                st = rng.choice([None, 0, min(1, m)])
+                cnt = rng.choice([None, None, max(0, m - (st or 0))])
             world.run(f"wload {main} {world.arr_token(arr)} {1 if cp else 0} {opt(st)} {opt(cnt)}",
                       lambda: o.load_data(arr, copy=cp, start_index=st, sample_count=cnt), main, kind,
                       args_state=lambda: arr.tobytes())
@@ -409,6 +431,8 @@ def gen_history(world: World, kind: str, length: int, weights=None, irregular_bi
         elif op == "setcap":
             v = rng.choice([o.capacity, o.capacity + 2, o.start_index + o.sample_count, max(0, o.start_index + o.sample_count - 1),
                             -1, o.capacity + 7, 0])
+            if rng.random() < valid_bias:
+                v = o.capacity + rng.choice([1, 2, 5])
             def th():
                 o.capacity = v
             world.run(f"wsetcap {main} {v}", th, main, kind)
